@@ -83,7 +83,41 @@ class GffPX(PX):
                 args.append(self.expr())
             self.expect(")")
             return ("format", s.text, args, p.pos)
+        if p.kind == "id" and p.text == "vec" and self.at("!", 1) and self.at("[", 2):
+            self.next()
+            self.next()
+            return PX.primary(self, nostruct)          # `vec![a, b]` = the array literal
         return PX.primary(self, nostruct)
+
+    def postfix(self, nostruct):
+        """as `PX.postfix`, plus `e?` (functions of the spec marked `result=True`)"""
+        e = self.primary(nostruct)
+        while True:
+            if self.at("."):
+                pos = self.next().pos
+                x = self.next()
+                if x.kind == "num":
+                    e = ("tidx", e, int(x.text), pos)
+                    continue
+                if x.kind != "id":
+                    raise Unsupported("`.%s`" % x.text, x.pos)
+                if self.at("::"):
+                    self.next()
+                    self.generic_args()
+                if self.at("("):
+                    e = ("mcall", e, x.text, self.args(), pos)
+                else:
+                    e = ("field", e, x.text, pos)
+            elif self.at("["):
+                pos = self.next().pos
+                i = self.expr()
+                self.expect("]")
+                e = ("index", e, i, pos)
+            elif self.at("?"):
+                pos = self.next().pos
+                e = ("try", e, pos)
+            else:
+                return e
 
     def pat(self):
         p = self.peek()
@@ -115,6 +149,20 @@ class GffPX(PX):
             if self.peek().kind == "id" and self.peek().text in ("for", "while", "loop"):
                 raise Unsupported("`%s` loop (dialect gff has no loops)" % self.peek().text, self.peek().pos)
             pos = self.peek().pos
+            if self.at("if") and not self.at("let", 1):
+                # `if c { stmts } [else { stmts }]` followed by more of the block: a statement (mutators)
+                save = self.i
+                self.next()
+                c = self.expr(nostruct=True)
+                a = self.block()
+                b = None
+                if self.at("else") and not self.at("if", 1):
+                    self.next()
+                    b = self.block()
+                if a[2] is None and (b is None or b[2] is None) and not self.at("else"):
+                    stmts.append(("ifstmt", c, a, b, pos))
+                    continue
+                self.i = save
             e = self.expr()
             if self.at("="):
                 self.next()
@@ -126,6 +174,11 @@ class GffPX(PX):
                 if e[0] == "mcall" and e[2] == "push" and len(e[3]) == 1:
                     self.next()
                     stmts.append(("push", e[1], None, e[3][0], pos))
+                    continue
+                if (e[0] == "mcall" and e[2] in ("sort", "sort_unstable", "sort_by", "sort_unstable_by", "sort_by_key", "sort_unstable_by_key")
+                        and e[1][0] == "path" and len(e[1][1]) == 1):
+                    self.next()
+                    stmts.append(("permute", e[1], None, None, pos))
                     continue
                 raise Unsupported("expression statement (dialect gff: `let`, `self.f = e;`, `self.f.push(e);` and a tail expression)", pos)
             if self.peek().kind == "op" and self.peek().text in ("+=", "-=", "*="):
@@ -166,8 +219,37 @@ class GffTr(Tr):
                 t = ty or t
                 lines.append("let %s := %s" % (self.pat_code(p, env, t), code))
                 continue
+            if kind == "permute":
+                # `xs.sort…(..)`: whatever the comparison, the slice afterwards is a permutation of the slice before
+                v = p[1][0]
+                if (v not in env or (self.elem_ty(env[v]) or "").replace(" ", "") != "(String,Vec<String>)"
+                        or "permGroups" not in (self.f.get("abs") or [])):
+                    raise Unsupported("sorting of `%s` (only a local list of key groups, in a function whose spec has `permGroups`)" % v, pos)
+                if "permGroups" not in self.used_abs:
+                    self.used_abs.append("permGroups")
+                lines.append("let %s := permGroups %s" % (lname(v), lname(v)))
+                continue
             if not self.f.get("mut_self"):
                 raise Unsupported("assignment in a function that is not declared a mutator of `self`", pos)
+            if kind == "ifstmt":
+                c, _ = self.expr(p, env, lines)
+                arms = []
+                for blk in (ty, e):
+                    if blk is None:
+                        arms.append("pure self" if self.mode_monadic else "self")
+                        continue
+                    ls, _, _ = self.block(blk, env, None)
+                    arms.append(self.render([l.replace("\n", "\n  ") for l in ls], "self", 2))
+                code = "(if %s then %s else %s)" % (c, atom_block(arms[0]), atom_block(arms[1]))
+                lines.append(("let self ← %s" if self.mode_monadic else "let self := %s") % code)
+                continue
+            if p[0] == "index" and self.self_field_place(p[1]) is not None:
+                fld = self.self_field_place(p[1])
+                i, _ = self.expr(p[2], env, lines)
+                code, t = self.expr(e, env, lines)
+                tmp = self.bind(lines, "Rs.setIdx self.%s %s %s" % (lname(fld), atom(i), atom(code)))
+                lines.append("let self := { self with %s := %s }" % (lname(fld), tmp))
+                continue
             fld = self.self_field_place(p)
             st = self.norm(self.f.get("self_ty"))
             if fld is None or st not in self.decls or fld not in dict(self.decls[st]["fields"]):
@@ -221,7 +303,71 @@ class GffTr(Tr):
             return c, "char"
         if k == "field" and self.self_field_place(e) == "inner" and self.f.get("inner"):
             return "inner", self.f["inner"]
+        if k == "try":
+            if not self.f.get("result"):
+                raise Unsupported("`?` in a function that is not declared `result`", e[2])
+            c, t = self.expr(e[1], env, lines)
+            m = re.match(r"^Result<(.*)>$", t or "")
+            if not m:
+                raise Unsupported("`?` on a value of type %s" % t, e[2])
+            return self.bind_try(lines, c), m.group(1)
+        if k == "path" and e[1] == ["true"]:
+            return "true", "bool"
+        if k == "path" and e[1] == ["false"]:
+            return "false", "bool"
         return Tr.expr(self, e, env, lines)
+
+    def bind_try(self, lines, code):
+        self._try = True
+        try:
+            return self.bind(lines, code)
+        finally:
+            self._try = False
+
+    def bind(self, lines, code):
+        if self.f.get("result") and not getattr(self, "_try", False):
+            raise Unsupported("an operation that can panic (`%s`) in a `result` function" % code.split()[0])
+        if not self.f.get("result") and getattr(self, "_try", False):
+            raise Unsupported("`?` outside a `result` function")
+        return Tr.bind(self, lines, code)
+
+    def call(self, e, env, lines):
+        path, args, pos = e[1], e[2], e[3]
+        key = "::".join(path)
+        if key == "Ok" and len(args) == 1 and self.f.get("result"):
+            c, t = self.expr(args[0], env, lines)
+            return c, t
+        if key == "Err" and len(args) == 1 and self.f.get("result"):
+            return self.bind_try(lines, "(throw () : Except Unit _)"), None          # the error value is no part of any property
+        if key == "u8::from_str" and len(args) == 1:
+            c, t = self.expr(args[0], env, lines)
+            if t not in STR_TYS:
+                raise Unsupported("`u8::from_str` on a value of type %s" % t, pos)
+            return "Rs.parseU8 %s" % atom(c), "Result<u8>"
+        if key == "Phase" and len(args) == 1 and self.unit.get("types", {}).get("Phase") == "Option Nat":
+            c, t = self.expr(args[0], env, lines)
+            return c, "Phase"
+        if key == "String::from_utf8" and len(args) == 1 and args[0][0] == "array" and len(args[0][1]) == 1:
+            c, t = self.expr(args[0][1][0], env, lines)
+            if t != "u8":
+                raise Unsupported("`String::from_utf8(vec![x])` with x of type %s" % t, pos)
+            return "Rs.fromUtf8One %s" % atom(c), "Option<String>"
+        return Tr.call(self, e, env, lines)
+
+    def struct_lit(self, e, env, lines):
+        """fields the spec skips (`inner`) must be initialised by the pinned expression (`pinned_fields`) and are dropped"""
+        name = e[1][-1]
+        skip = self.unit.get("decls", {}).get(name, {}).get("skip", [])
+        pinned = self.f.get("pinned_fields", {})
+        keep = []
+        for fl, v in e[2]:
+            if fl in skip:
+                if fl not in pinned or ast_sig(v) != pinned[fl]:
+                    raise Unsupported("initialiser of the field `%s` (the translation spec pins it: %s; found %s)"
+                                      % (fl, pinned.get(fl), ast_sig(v)), e[3])
+                continue
+            keep.append((fl, v))
+        return Tr.struct_lit(self, (e[0], e[1], keep, e[3]), env, lines)
 
     def ser_component(self, c, t, pos):
         if t in STR_TYS:
@@ -250,6 +396,13 @@ class GffTr(Tr):
                 if ab not in self.used_abs:
                     self.used_abs.append(ab)
             return "serialize %s (Rs.csvFields [%s])" % (atom(c), ", ".join(parts)), "csv::Result<()>"
+        if m == "map_err" and len(args) == 1 and args[0][0] == "closure" and self.f.get("result"):
+            return self.expr(recv, env, lines)          # errors are erased (`Except Unit`)
+        if m == "into" and not args:
+            c, t = self.expr(recv, env, lines)
+            if t not in INT_W:
+                raise Unsupported("`.into()` on a value of type %s" % t, pos)
+            return c, t
         if any(a[0] == "closure" for a in args) or m == "map":
             return Tr.mcall(self, e, env, lines)
         if m in ("is_empty", "iter_all", "to_string", "join", "as_str"):
@@ -297,7 +450,7 @@ class GffTr(Tr):
             env[n] = t
         self.mode_monadic = True
         self.block(b, env, None)
-        mon = self.monadic or f.get("force_monadic", False)
+        mon = self.monadic or f.get("force_monadic", False) or bool(f.get("result"))
         self.ntemp, self.used_abs = 0, []
         self.mode_monadic = mon
         lines, code, t = self.block(b, env, None)
@@ -317,7 +470,10 @@ class GffTr(Tr):
         for n, t2 in f.get("params", []):
             ps.append("(%s : %s)" % (lname(n), self.lean_ty(t2)))
         ret = self.lean_ty(f["ret"])
-        if mon:
+        if f.get("result"):
+            head = "def %s %s : Except Unit %s := do" % (f["lean"], " ".join(ps), atom_ty(ret))
+            text = head + "\n" + "".join("  " + l + "\n" for l in lines) + "  pure %s" % atom(code)
+        elif mon:
             head = "def %s %s : Res %s := do" % (f["lean"], " ".join(ps), atom_ty(ret))
             text = head + "\n" + "".join("  " + l + "\n" for l in lines) + "  pure %s" % atom(code)
         else:
@@ -333,6 +489,20 @@ class _NoAttrs:
     def __init__(self, src):
         self.code = re.sub(r"#\[[^\]\n]*\]", lambda m: " " * len(m.group(0)), src.code)
         self.line_of = src.line_of
+
+
+def ast_sig(e):
+    """canonical text of a call chain (positions dropped): how the spec pins an initialiser it does not translate"""
+    k = e[0]
+    if k == "num":
+        return str(e[1])
+    if k == "path":
+        return "::".join(e[1])
+    if k == "call":
+        return "::".join(e[1]) + "(" + ", ".join(ast_sig(a) for a in e[2]) + ")"
+    if k == "mcall":
+        return ast_sig(e[1]) + "." + e[2] + "(" + ", ".join(ast_sig(a) for a in e[3]) + ")"
+    return "?"
 
 
 def translate_unit(src, unit, fail):
@@ -403,7 +573,8 @@ def unit(**kw):
     return kw
 
 
-ABSTRACT = [("serialize", "ω → List (List Nat) → ρ"), ("dec", "Nat → List Nat")]
+ABSTRACT = [("serialize", "ω → List (List Nat) → ρ"), ("dec", "Nat → List Nat"),
+            ("permGroups", "List (List Nat × List (List Nat)) → List (List Nat × List (List Nat))")]
 CSV_W = "csv::Writer<W>"
 
 unit(name="SrcBed", file="src/io/bed.rs", props="property C13", variables=["ω", "ρ"],
@@ -441,6 +612,10 @@ unit(name="SrcBed", file="src/io/bed.rs", props="property C13", variables=["ω",
               self_ty="Record", params=[("end", "u64")], ret="Record", mut_self=True, theorem="setters_eq_model"),
          dict(name="push_aux", lean="pushAux", within="impl Record", header="pub fn push_aux(&mut self, field: &str)",
               self_ty="Record", params=[("field", "str")], ret="Record", mut_self=True, theorem="setters_eq_model"),
+         dict(name="set_name", lean="setName", within="impl Record", header="pub fn set_name(&mut self, name: &str)",
+              self_ty="Record", params=[("name", "str")], ret="Record", mut_self=True, force_monadic=True, theorem="setName_eq_model"),
+         dict(name="set_score", lean="setScore", within="impl Record", header="pub fn set_score(&mut self, score: &str)",
+              self_ty="Record", params=[("score", "str")], ret="Record", mut_self=True, force_monadic=True, theorem="setScore_eq_model"),
      ])
 
 unit(name="SrcGff", file="src/io/gff.rs", props="property C13", variables=["ω", "ρ"],
@@ -449,12 +624,30 @@ unit(name="SrcGff", file="src/io/gff.rs", props="property C13", variables=["ω",
      decls={"GffType": dict(kind="enum", head="pub enum GffType", lean="GffType"),
             "Writer": dict(kind="struct", head="pub struct Writer<W: io::Write>", lean="Writer", skip=["inner"]),
             "Record": dict(kind="struct", head="pub struct Record", lean="Record")},
+     methods={"GffType.separator": dict(lean="separator", ret="(u8, u8, u8)")},
      functions=[
          dict(name="separator", lean="separator", within="impl GffType", header="fn separator(self) -> (u8, u8, u8)",
               self_ty="GffType", params=[], ret="(u8, u8, u8)", theorem="separator_eq_model"),
          dict(name="write", lean="write", within="impl<W: io::Write> Writer<W>",
               header="pub fn write(&mut self, record: &Record) -> csv::Result<()>", self_ty="Writer", inner=CSV_W,
-              params=[("record", "Record")], ret="csv::Result<()>", abs=["serialize", "dec"], theorem="write_eq_model"),
+              params=[("record", "Record")], ret="csv::Result<()>", abs=["serialize", "dec", "permGroups"], theorem="write_eq_model"),
+         dict(name="new", lean="writerNew", within="impl<W: io::Write> Writer<W>",
+              header="pub fn new(writer: W, fileformat: GffType) -> Self",
+              params=[("fileformat", "GffType")], ret="Writer", force_monadic=True, theorem="writerNew_eq_model",
+              pinned_fields={"inner": "csv::WriterBuilder::new().delimiter(9).flexible(true).from_writer(writer)"}),
+     ])
+
+unit(name="SrcGffRead", file="src/io/gff.rs", props="property C13",
+     types={"Phase": "Option Nat", "Option<u8>": "Option Nat"},
+     calls={"Self::validate": dict(lean="validate", ret="Option<u8>")},
+     functions=[
+         dict(name="validate", lean="validate", within="impl Phase", header="fn validate<T: Into<u8>>(p: T) -> Option<u8>",
+              params=[("p", "u8")], ret="Option<u8>", theorem="validate_eq_model"),
+         dict(name="deserialize", lean="phaseDeserialize", within="impl<'de> Deserialize<'de> for Phase",
+              header="fn deserialize<D>(deserializer: D) -> Result<Self, D::Error> where D: Deserializer<'de>,",
+              params=[("field", "String")], ret="Phase", result=True, theorem="phaseDeserialize_refines_model",
+              # trusted reading: `String::deserialize(deserializer)?` hands the csv column over as a string
+              rewrites=[("String::deserialize(deserializer)?", "field")]),
      ])
 
 
